@@ -1110,7 +1110,6 @@ fn gen_perfect_line(rng: &mut Rng) -> String {
     let tbl = to_bits_list(&v, is32);
     let f = if is32 { "f32" } else { "f64" };
     // the generator observes the implementation's output; the model only checks its contract
-    if std::env::var("QUANT_DEBUG").is_ok() { eprintln!("perfect {} {:x} {:x} {}", f, b, p, show_list(tbl.clone())); }
     let w = guarded(|| dispatch_perfect_weights(f, b, p, &tbl)).ok().flatten().flatten().unwrap_or_default();
     format!("quant.perfect {} {:x} {:x} {} {}", f, b, p, show_list(tbl), show_list(w))
 }
@@ -1408,6 +1407,25 @@ pub fn gen(rng: &mut Rng, tier: &str, out: &mut Vec<String>) {
     out.push("quant.fast cont f64 20 18 - 3ff0000000000000,bfe0000000000000,3ff0000000000000".into()); // D14
     out.push("quant.fast cont f64 20 18 4000000000000000 3ff0000000000000,7ff8000000000000,3ff0000000000000".into()); // D14 NaN
     out.push("quant.new i32 10 c 0 10005".into()); // D10
+    out.push("quant.new i8 10 c 80 7e".into()); // signed, narrower than Probability, spans > half
+    // D18 / D19 / D20 (`…_perfect`): negative entry after a large one; tiny normalisation
+    out.push("quant.perfect f64 20 18 4008000000000000,bff0000000000000,0 -".into());
+    out.push("quant.perfect f64 20 18 15924bb8b6ea1,0,e6186d17b49c -".into());
+    // D1 / D17: quantised Gaussian on -5..=5, iterated symbol table vs direct queries
+    let fixed = |spec: LeakySpec, ops: Vec<LOp>| -> Option<String> {
+        let oo: Vec<Option<LOp>> = ops.iter().cloned().map(Some).collect();
+        let (_, outs) = dispatch_leaky(&spec, &oo)?;
+        Some(leaky_line_text(&spec, &ops[..outs.len().min(ops.len())], &outs))
+    };
+    let d1 = LeakySpec { sym: "i32", b: 32, p: 24, min: -5, max: 5, base: Base::Gauss(0.0, 1.0), hint: HintMode::True };
+    out.extend(fixed(d1, vec![LOp::Full, LOp::Table, LOp::Enc(-4), LOp::Enc(-5), LOp::Enc(5), LOp::Enc(6), LOp::Dec(58), LOp::Dec(57)]));
+    // D16: signed symbols, hint off by more than half the symbol range
+    let d16a = LeakySpec { sym: "i8", b: 16, p: 12, min: -100, max: 100, base: Base::Gauss(0.0, 60.0), hint: HintMode::ConstF(100.0) };
+    out.extend(fixed(d16a, vec![LOp::Full, LOp::Dec(828), LOp::Sweep(0, 4095, 1)]));
+    let d16b = LeakySpec { sym: "i8", b: 16, p: 12, min: -128, max: 127, base: Base::Gauss(0.0, 60.0), hint: HintMode::ConstF(127.0) };
+    out.extend(fixed(d16b, vec![LOp::Full, LOp::Dec(208), LOp::Sweep(0, 4095, 1)]));
+    let d16c = LeakySpec { sym: "i8", b: 16, p: 12, min: -128, max: 127, base: Base::Gauss(0.0, 60.0), hint: HintMode::ConstF(-128.0) };
+    out.extend(fixed(d16c, vec![LOp::Full, LOp::Dec(3881), LOp::Sweep(0, 4095, 1)]));
     for _ in 0..3000 * k {
         out.push(gen_fast_line(rng));
     }
